@@ -651,13 +651,15 @@ def declared (gs : List Group) (n : Name) : Bool := n ≠ [] && gs.any (fun g =>
 
 def Sig.groups (s : Sig) (isRet : Bool) : List Group := if isRet then s.results else s.params
 
-/-- The selector and path exist and end at a scalar avo undertakes to resolve
-(basic non-string non-complex, or pointer; defined types are left free). -/
+/-- The selector and path exist (in every variable the selector may denote: only
+the blank name `_` can denote several) and end at a scalar avo undertakes to
+resolve (basic non-string non-complex, or pointer; defined types are left free). -/
 def MustResolve (s : Sig) (isRet : Bool) (sel : Sel) (path : List Step) : Prop :=
   (match sel with
    | .at _ => True
    | .name n => declared (s.groups isRet) n = true) ∧
-  ∃ top ∈ selTops s isRet sel, ∃ t, pathTy top.ty path = some t ∧ (toPrimitive t).isSome = true
+  selTops s isRet sel ≠ [] ∧
+  ∀ top ∈ selTops s isRet sel, ∃ t, pathTy top.ty path = some t ∧ (toPrimitive t).isSome = true
 
 instance (s isRet sel path) : Decidable (MustResolve s isRet sel path) := by
   unfold MustResolve
